@@ -41,7 +41,28 @@ func replicate(run *vh.Run, h appdrv.History, reps int, key string) bool {
 				restartAt = commits[run.RNG.Intn(len(commits))]
 			}
 		}
+		// the two replicas execute the same blocks but see different mempool traffic: the second
+		// one skips some CheckTx calls of the history and checks some transactions of LATER
+		// blocks early (the property is about the block sequence, whatever each node's mempool saw)
+		var later [][]byte
+		for _, c := range h.Calls {
+			if c.Kind == "deliver" {
+				later = append(later, c.Tx)
+			}
+		}
 		for i, c := range h.Calls {
+			if c.Kind == "check" {
+				appdrv.RawResp(a1, c)
+				if run.RNG.Chance(1, 2) {
+					appdrv.RawResp(a2, c)
+				}
+				continue
+			}
+			if c.Kind == "begin" && len(later) > 0 && run.RNG.Chance(1, 2) {
+				for n := 0; n < 1+run.RNG.Intn(3); n++ {
+					appdrv.RawResp(a2, appdrv.Call{Kind: "check", Tx: later[run.RNG.Intn(len(later))]})
+				}
+			}
 			r1, r2 := appdrv.RawResp(a1, c), appdrv.RawResp(a2, c)
 			if i == restartAt {
 				a2.Gobpath = filepath.Join(tmpDir, "c09.gob")
